@@ -3,19 +3,49 @@ import Rooc.Oracle
 import Rooc.Syntax.Parse
 import Rooc.Syntax.Ref
 import Rooc.Syntax.Wire
+import Rooc.Syntax.GrammarPin
 namespace Rooc.Drv.C09
 open Rooc Sexp Rooc.Syntax
 
-def encRes : TextRes → Sexp
-  | .ok t => app "ok" [t.enc]
-  | .err .reject => app "err" [.atom "reject"]
-  | .err .panic => app "err" [.atom "panic"]
-  | .err .fuel => app "err" [.atom "fuel"]
+mutual
+/-- the tree carries an array literal whose display the model does not compute -/
+def hasOpaque : PExp → Bool
+  | .prim d => d == opaquePrim
+  | .cvar _ as | .access _ as | .call _ as | .block _ as => hasOpaqueList as
+  | .scoped _ _ its b => hasOpaqueList its || hasOpaque b
+  | .bin _ l r => hasOpaque l || hasOpaque r
+  | .un _ e => hasOpaque e
+  | _ => false
+def hasOpaqueList : List PExp → Bool
+  | [] => false
+  | e :: es => hasOpaque e || hasOpaqueList es
+end
+
+/-- the expression text stands in `min <text>␤s.t.…`: NEWLINEs at its end belong to the `nl+` behind the objective -/
+def dropTrailingNl (toks : List Tok) : List Tok := (toks.reverse.dropWhile (· == .nl)).reverse
+
+/-- answer of the parser model with the class of a rejection: `peg` (the grammar does not match) or the first
+error of the AST builder -/
+def encText (s : List Char) : Sexp :=
+  match grammarDrift with
+  | some rule => app "err" [.atom "grammar-rule-changed", .atom rule]
+  | none =>
+  match lex s with
   | .unsupported => app "err" [.atom "unsupported"]
+  | .ok toks =>
+    let toks := dropTrailingNl toks
+    match parseToksRaw toks with
+    | .error .reject => app "err" [.atom "reject", .atom "peg"]
+    | .error .panic => app "err" [.atom "panic"]
+    | .error .fuel => app "err" [.atom "fuel"]
+    | .ok t =>
+      match buildErr t with
+      | some e => app "err" [.atom "reject", .atom e]
+      | none => if hasOpaque t then app "err" [.atom "unsupported"] else app "ok" [t.enc]
 
 /-- model requests for C09: `(parse "<text>")` → the `PreExp` the objective `min <text>` parses to. -/
 def handle (α : Type) [Arith α] [Wire α] : List Sexp → Sexp
-  | [.atom "parse", .str s] => encRes (parseText s.toList)
+  | [.atom "parse", .str s] => encText s.toList
   | _ => app "err" [.atom "bad-request"]
 
 def lowerChar (c : Char) : Char := if decide ('A' ≤ c) && decide (c ≤ 'Z') then Char.ofNat (c.toNat + 32) else c
@@ -141,17 +171,75 @@ def decodeConsts (more : List Sexp) : List (String × Rat) :=
       | _ => none
     | _ => []
 
+/-! REGRESSION classification of the defect "the bounds of a range iterator are looked up in the whole subtree"
+(`parse_iterator`: `find_first_tagged("to")` / `("range_type")` search the pairs in pre-order, so a range nested in
+the LOWER bound — `sum(i in sum(j in 0..2) { j }..5) { … }` — supplies the upper bound and the inclusiveness). -/
+
+mutual
+/-- upper bound and inclusiveness of the first range iterator met in pre-order -/
+partial def firstRange : PExp → Option (PExp × Bool)
+  | .scoped _ _ its b => (firstRangeIts its).orElse fun _ => firstRange b
+  | .cvar _ as | .access _ as | .call _ as | .block _ as => as.findSome? firstRange
+  | .bin _ l r => (firstRange l).orElse fun _ => firstRange r
+  | .un _ e => firstRange e
+  | _ => none
+partial def firstRangeIts : List PExp → Option (PExp × Bool)
+  | [] => none
+  | .call "range" [a, b, .bool incl] :: rest => ((firstRange a).orElse fun _ => some (b, incl)).orElse fun _ => firstRangeIts rest
+  | e :: rest => (firstRange e).orElse fun _ => firstRangeIts rest
+end
+
+mutual
+/-- the tree as the defective builder reads it -/
+partial def nestedRangeReading : PExp → PExp
+  | .scoped k vs its b => .scoped k vs (its.map nestedRangeIter) (nestedRangeReading b)
+  | .cvar n as => .cvar n (as.map nestedRangeReading)
+  | .access n as => .access n (as.map nestedRangeReading)
+  | .call n as => .call n (as.map nestedRangeReading)
+  | .block n as => .block n (as.map nestedRangeReading)
+  | .bin o l r => .bin o (nestedRangeReading l) (nestedRangeReading r)
+  | .un o e => .un o (nestedRangeReading e)
+  | e => e
+partial def nestedRangeIter : PExp → PExp
+  | .call "range" [a, b, .bool incl] =>
+    match firstRange a with
+    | some (b', incl') => .call "range" [nestedRangeReading a, nestedRangeReading b', .bool incl']
+    | none => .call "range" [nestedRangeReading a, nestedRangeReading b, .bool incl]
+  | e => nestedRangeReading e
+end
+
+def isNestedRangeDefect (toks : List Tok) (ie : Option Ref.E) : Bool :=
+  match parseToks toks, ie with
+  | .ok t, some i =>
+    let r := nestedRangeReading t
+    Ref.canon (Ref.ofPExp r) != Ref.canon (Ref.ofPExp t) && Ref.canon (Ref.ofPExp r) == Ref.canon i
+  | _, _ => false
+
+/-- KNOWN DEFECT classification: `iteration_declaration = { … ~ ^"in" ~ iterator }` matches the word `in` in any letter
+case and WITHOUT a word boundary, so `i inS`, `i in_x` are read as `i in S`, `i in _x` -/
+def gluedIn : List Tok → Bool
+  | a :: .word w :: rest =>
+    ((match a with | .word _ | .rpar => true | _ => false)
+      && (lowerWord w).startsWith "in" && (w.length > 2 || (match rest with | .us :: _ => true | _ => false)))
+      || gluedIn (.word w :: rest)
+  | _ :: rest => gluedIn rest
+  | [] => false
+
 def oracle : List Sexp → Sexp
   | .atom "check" :: .str s :: impl :: more =>
     match lex s.toList with
     | .unsupported => app "ok" [.atom "skipped-unsupported"]
     | .ok toks =>
+      let toks := dropTrailingNl toks
       match decodeImpl impl with
       | none => app "err" [.atom "decode"]
       | some ie =>
         let consts := decodeConsts more
         let v := judge toks ie consts
         if v.isOk then report s v
+        else if isNestedRangeDefect toks ie then app "violation" [.atom "range-bound-read-from-nested-range", .str s]
+        else if (match v with | .acceptsIllformed => true | _ => false) && gluedIn toks then
+          app "violation" [.atom "keyword-in-without-word-boundary", .str s]
         else
           match more.find? (fun | .list (.atom "twin" :: _) => true | _ => false) with
           | some (.list [.atom "twin", .str s2, impl2]) =>
